@@ -1651,13 +1651,25 @@ fn main() {
                 let mut tail: Vec<Op> = Vec::new();
                 let mut items: Vec<Item> = Vec::new();
                 let mut prelinks: Vec<Op> = Vec::new();
-                for _ in 0..nops {
+                // kcompose: sometimes the block first inserts a vertex on a side of the polygon and then triangulates
+                // it -- the triangulation must walk the face as the transaction left it (one more side)
+                let mut poly = poly;
+                let grow = mode == "kcompose" && poly.is_some() && only != "insert" && only != "remesh" && r2.chance(1, 3);
+                let nops = if grow { nops.max(2) } else { nops };
+                for iop in 0..nops {
                     let fresh = m.n_darts() as u32;
                     let alloc = Op::AddDarts(24);
                     exec(&mut m, &alloc);
                     tail.push(alloc);
-                    let pl = if r2.chance(9, 10) { poly } else { None };
-                    let k = gen_kcall(&mut r2, &m, fresh, pl, &only);
+                    let pl = if r2.chance(9, 10) || grow { poly } else { None };
+                    let k = match (grow && iop == 0, poly) {
+                        (true, Some((f, sides))) => {
+                            let e = 1 + r2.below(u64::from(sides)) as u32;
+                            poly = Some((f, sides + 1));
+                            KCall::InsertVertex(e, fresh, fresh + 1, if r2.chance(1, 2) { Some(0.5) } else { None })
+                        }
+                        _ => gen_kcall(&mut r2, &m, fresh, pl, &only),
+                    };
                     // spare darts that are linked in the committed map and freed earlier in the
                     // same block: the kernel must see its own transaction's view of them
                     if mode == "kcompose" && r2.chance(1, 3) {
